@@ -1161,6 +1161,10 @@ impl Blockchain {
         if old_chain.is_empty() {
             let mut result: WindingResult =
                 WindingResult::Wind(new_chain.len() - 1, false, WALLET_NOT_UPDATED);
+            // once a block of the new chain fails to validate, the chain to wind back is the
+            // old chain (empty here), not the new one
+            let mut chain_to_wind: &[SaitoHash] = new_chain;
+            let mut wind_failed = false;
             loop {
                 #[cfg(saito_verif)]
                 if crate::core::consensus::verif_hook::over_budget(new_chain.len()) {
@@ -1172,7 +1176,7 @@ impl Blockchain {
 
                         result = self
                             .wind_chain(
-                                new_chain,
+                                chain_to_wind,
                                 old_chain,
                                 current_wind_index,
                                 wind_failure,
@@ -1180,6 +1184,16 @@ impl Blockchain {
                                 configs,
                             )
                             .await;
+                        if matches!(
+                            result,
+                            WindingResult::Wind(_, true, _) | WindingResult::Unwind(_, true, _, _)
+                        ) {
+                            if wind_failed {
+                                return (false, wallet_update_status);
+                            }
+                            wind_failed = true;
+                            chain_to_wind = old_chain;
+                        }
                     }
                     WindingResult::Unwind(
                         current_unwind_index,
@@ -1190,7 +1204,7 @@ impl Blockchain {
                         wallet_update_status |= wallet_status;
                         result = self
                             .unwind_chain(
-                                new_chain,
+                                chain_to_wind,
                                 old_chain.as_slice(),
                                 current_unwind_index,
                                 wind_failure,
@@ -1200,13 +1214,18 @@ impl Blockchain {
                             .await;
                     }
                     WindingResult::FinishWithSuccess(wallet_updated) => {
-                        return (true, wallet_update_status | wallet_updated)
+                        return (!wind_failed, wallet_update_status | wallet_updated)
                     }
                     WindingResult::FinishWithFailure => return (false, wallet_update_status),
                 }
             }
         } else if !new_chain.is_empty() {
             let mut result = WindingResult::Unwind(0, true, old_chain.to_vec(), WALLET_NOT_UPDATED);
+            // once a block of the new chain fails to validate, the chain to wind back is the
+            // old chain, not the new one; re-winding it must end in failure
+            let mut chain_to_wind: &[SaitoHash] = new_chain;
+            let mut chain_to_restore: &[SaitoHash] = old_chain;
+            let mut wind_failed = false;
             loop {
                 #[cfg(saito_verif)]
                 if crate::core::consensus::verif_hook::over_budget(
@@ -1219,14 +1238,25 @@ impl Blockchain {
                         wallet_update_status |= wallet_status;
                         result = self
                             .wind_chain(
-                                new_chain,
-                                old_chain,
+                                chain_to_wind,
+                                chain_to_restore,
                                 current_wind_index,
                                 wind_failure,
                                 storage,
                                 configs,
                             )
                             .await;
+                        if matches!(
+                            result,
+                            WindingResult::Wind(_, true, _) | WindingResult::Unwind(_, true, _, _)
+                        ) {
+                            if wind_failed {
+                                return (false, wallet_update_status);
+                            }
+                            wind_failed = true;
+                            chain_to_wind = old_chain;
+                            chain_to_restore = &[];
+                        }
                     }
                     WindingResult::Unwind(
                         current_wind_index,
@@ -1237,7 +1267,7 @@ impl Blockchain {
                         wallet_update_status |= wallet_status;
                         result = self
                             .unwind_chain(
-                                new_chain,
+                                chain_to_wind,
                                 old_chain.as_slice(),
                                 current_wind_index,
                                 wind_failure,
@@ -1247,7 +1277,7 @@ impl Blockchain {
                             .await;
                     }
                     WindingResult::FinishWithSuccess(wallet_updated) => {
-                        return (true, wallet_update_status | wallet_updated);
+                        return (!wind_failed, wallet_update_status | wallet_updated);
                     }
                     WindingResult::FinishWithFailure => {
                         return (false, wallet_update_status);
@@ -1627,7 +1657,7 @@ impl Blockchain {
             //
             // winding requires starting at the END of the vector and rolling
             // backwards until we have added block #5, etc.
-            WindingResult::Wind(new_chain.len() - 1, wind_failure, wallet_updated)
+            WindingResult::Wind(new_chain.len().saturating_sub(1), wind_failure, wallet_updated)
         } else {
             // continue unwinding,, which means
             //
